@@ -169,6 +169,46 @@ def compare_configs(label, fam, kw, rows_class, low_limit, emit, case):
                 os.environ[k] = v
 
 
+def small_frames(fam, script, st, emit, n=600, reps=4):
+    import numpy as np
+    import pandas as pd
+    from vf import eng
+    letters = np.array(["a", "b", "c", "d", "e"])
+    ids = np.arange(n)
+    ds1 = pd.DataFrame({"Id_1": ids // 5, "Id_2": letters[ids % 5], "Me_1": (ids % 7).astype(float), "Me_2": np.array(["x", "yy", "Zed"])[ids % 3]})
+    ds2 = ds1.copy()
+    ds2["Me_1"] = ds2["Me_1"] * -2.0 - 1.0
+    ds2["Me_2"] = "q9"
+    kw = {"script": script, "data_structures": st, "datapoints": {"DS_1": ds1, "DS_2": ds2}, "return_only_persistent": False}
+    saved = os.environ.get("VTL_THREADS")
+    try:
+        os.environ["VTL_THREADS"] = "1"
+        s0, r0 = eng.call(eng.run, **kw)
+        if s0 == "exc":
+            emit({"v": "skip", "why": f"small-frame reference rejected ({fam})"})
+            return
+        d0 = fast_digest(r0)
+        for t in (2, 4, 16):
+            bad = None
+            for _ in range(reps):
+                os.environ["VTL_THREADS"] = str(t)
+                s, r = eng.call(eng.run, **kw)
+                if s == "exc" or fast_digest(r) != d0:
+                    bad = f"{type(r).__name__}: {str(r)[:120]}" if s == "exc" else "results differ from the threads=1 run"
+                    break
+            b = f"gen:{fam}/small-frames/threads={t}"
+            if bad:
+                emit({"v": "viol", "b": b, "mech": "gen/result-depends-on-configuration", "what": f"{script} on {n}-row DataFrames under threads={t}: {bad}",
+                      "case": {"small": [fam, script, n]}})
+            else:
+                emit({"v": "held", "b": b, "sample": {"case": script, "config": f"threads={t} x{reps}", "rows": n}})
+    finally:
+        if saved is None:
+            os.environ.pop("VTL_THREADS", None)
+        else:
+            os.environ["VTL_THREADS"] = saved
+
+
 def run_shard(spec, emit):
     import shutil
     from vf import corpus, eng, rider
@@ -193,6 +233,9 @@ def run_shard(spec, emit):
         kw = {"script": script, "data_structures": st, "datapoints": dps, "return_only_persistent": False}
         compare_configs(f"{script} on {nn} rows ({fmt})", f"gen:{fam}", kw, f"rows=1e{len(str(nn)) - 1}", "256MB" if nn >= 100_000 else "64MB", emit,
                         {"gen": [fam, script, nn, fmt, spec["seed"] * 101 + spec["shard"]]})
+        # the same script on small in-memory DataFrames with sorted, fully overlapping keys (operand pipelines of equal size
+        # finish in either order), repeated: cheap, and the schedule-dependent outcomes show up here first
+        small_frames(fam, script, st, emit)
     shutil.rmtree(work, ignore_errors=True)
     for c in rider.corpus_slice(spec, quick_fraction=40, tag="C15")[: (3 if tier == "quick" else 12)]:
         if not bud.ok():
@@ -208,7 +251,10 @@ def run_shard(spec, emit):
 
 def replay(case, emit):
     from vf import corpus, eng
-    if "corpus" in case:
+    if "small" in case:
+        fam, script, n = case["small"]
+        small_frames(fam, script, eng.structures(eng.mkds("DS_1", COMPS), eng.mkds("DS_2", COMPS)), emit, n=n, reps=12)
+    elif "corpus" in case:
         kw = corpus.run_kwargs(case["corpus"])
         kw["return_only_persistent"] = False
         compare_configs(case["corpus"]["id"], "corpus", kw, "rows=corpus", "64MB", emit, case)
